@@ -85,6 +85,12 @@ def fam_c14(rnd, tier):
         out.append((f"c14clo:{i}", gen.program_c02(rnd), ["canon"]))
     for i in range(n):
         out.append((f"c14key:{i}", gen.program_c14_keys(rnd), ["canon"]))
+    # objects whose identity outlives a relocation (lists that grow through aliases, also while they are map keys) and the
+    # collection / iterator natives: equality and hashing of object values are written twice as well
+    for i in range(n // 2):
+        out.append((f"c14id:{i}", gen.program_c10(rnd), ["canon"]))
+    for i in range(n // 4):
+        out.append((f"c14nat:{i}", gen.program_c11(rnd), ["canon"]))
     return out
 
 
